@@ -246,6 +246,15 @@ theorem eqv_is_equivalence :
     (∀ t u w, uniq t = true → uniq u = true → Eqv t u → Eqv u w → Eqv t w) :=
   ⟨eqv_refl, eqv_symm, eqv_trans⟩
 
+/-- what `Eqv` means on objects: the same keys, and under every key equivalent values — nothing about order -/
+theorem eqv_obj_iff_lookup {a b : KVs} (hn : nodupKeys a = true) :
+    Eqv (.obj a) (.obj b) ↔
+      ∀ k, match lookup k a, lookup k b with
+        | some v, some v' => Eqv v v'
+        | none, none => True
+        | _, _ => False :=
+  eqv_obj_iff hn
+
 /-- reordering the fields of an object with unique keys gives an equivalent object -/
 theorem eqv_of_perm {a b : KVs} (hu : uniq (.obj a) = true) (hp : a.Perm b) : Eqv (.obj a) (.obj b) := by
   have hn := ((uniq_obj a).1 hu).1
